@@ -57,6 +57,10 @@ def rep_case(seq, n, nclients=2):
         elif c == "R":
             f = sc.fut()
             sc.add(f"recv {f} 1", f"poll {f}", f"drop {f}")
+        elif c in "xy":
+            # a MALFORMED request (no delimiter+body) from client 1 / 2: recv must fail and owe nobody a reply
+            p = 1 if c == "x" else min(2, nclients)
+            sc.reveal_msg(p, [b"solo"] if i % 2 else [b"env", b""])
         else:
             p = int(c)
             cnt[p] = cnt.get(p, 0) + 1
@@ -74,12 +78,12 @@ def cases(tier, rng):
             out.append(req_case(seq, n))
             n += 1
     for L in range(1, (5 if tier == "quick" else 6) + 1):
-        for seq in itertools.product("SR12", repeat=L):
+        for seq in itertools.product("SR12xy" if L <= 4 or tier != "quick" else "SR12", repeat=L):
             out.append(rep_case(seq, n))
             n += 1
     for _ in range(300 if tier == "quick" else 4000):
         k = rng.randint(1, 4)
-        seq = [rng.choice("SSRRR" + "".join(str(i) for i in range(1, k + 1)) * 2) for _ in range(rng.randint(6, 24))]
+        seq = [rng.choice("SSRRRxy" + "".join(str(i) for i in range(1, k + 1)) * 2) for _ in range(rng.randint(6, 24))]
         out.append(rep_case(seq, n, k))
         out[-1].tags = ["rep-random"]
         n += 1
@@ -146,17 +150,26 @@ def oracle(case, lines):
         w = op.split()
         if w[0] == "reveal" and not w[2].startswith("ff0000"):
             p = int(w[1])
-            queued[p].append(None)
+            malformed = w[2] in (zmtp.message([b"solo"]).hex(), zmtp.message([b"env", b""]).hex())
+            queued[p].append("bad" if malformed else None)
             i += 1
         elif w[0] == "recv":
             pl = res[i + 1][1]
-            if pl.startswith("ready ok M["):
+            if pl.startswith("ready err"):
+                # legitimate only for a malformed request at the head of some client's queue; it owes nobody a reply
+                cands = [p for p, q in queued.items() if q and q[0] == "bad"]
+                if not cands:
+                    return f"recv failed although no malformed request was pending: {pl}"
+                queued[cands[0]].pop(0) if len(cands) == 1 else [queued[p].pop(0) for p in cands[:1]]
+            elif pl.startswith("ready ok M["):
                 body = bytes.fromhex(pl[len("ready ok M["):-1]).decode()
                 p = int(body[1 : body.index("q")])
                 qn = int(body[body.index("q") + 1 :])
-                if not queued.get(p):
-                    return f"recv returned a request that never arrived: {body}"
-                queued[p].pop(0)
+                if not queued.get(p) or queued[p][0] == "bad":
+                    # a malformed one may have been skipped by an earlier failing recv of ANOTHER client; be exact per client
+                    if not queued.get(p) or all(x == "bad" for x in queued[p]):
+                        return f"recv returned a request that never arrived: {body}"
+                queued[p].remove(None)
                 current = p
             elif pl == "pending":
                 if any(queued.values()):
